@@ -13,7 +13,14 @@ class Clause:
 
   def __init__(self, label, fn, props=None):
     self.label = label
-    self.fn = fn
+    self.raw_fn = fn
+
+    def guarded(*a, **k):
+      # views of opaque values built by the clause text are specification, not executed code
+      from pyvc import sym
+      with sym.no_downcast_checks():
+        return fn(*a, **k)
+    self.fn = guarded
     self.props = props  # None => inherits the contract's props
 
 
@@ -24,6 +31,13 @@ class RaiseCase:
   def __init__(self, label, exc, when=None, ensures=(), modifies=None):
     self.label = label
     self.exc = exc
+    if when is not None:
+      raw = when
+
+      def when(ctx, _raw=raw):
+        from pyvc import sym
+        with sym.no_downcast_checks():
+          return _raw(ctx)
     self.when = when
     self.ensures = list(ensures)
     self.modifies = modifies
@@ -84,6 +98,8 @@ class Contract:
     self.opaque_model = None           # callable(ex, fn, args, kwargs, node) -> wrapper|None
     self.val_ops_may_raise = False     # truthiness/eq/in on opaque Val may raise
     self.checkpoints = {}              # anchor -> [Clause]
+    self.hints = []                    # [(predicate(stmt), Clause)]: lemma proved, then assumed,
+                                       # right after a matching top-level statement
     self.ghost_init = None             # callable(ctx) to initialise ghost state
     self.inline_ok = set()             # callee quals executed inline
     self.notes = []
@@ -131,6 +147,12 @@ class Contract:
 
   def checkpoint(self, anchor, label, fn, props=None):
     self.checkpoints.setdefault(anchor, []).append(Clause(label, fn, props))
+
+  def hint(self, after, label, fn):
+    """A hint assertion: after the first-level statement for which `after(stmt)` holds, `fn` is
+    proved as an obligation of its own and then assumed.  A hint whose text refers to a local the
+    code does not have is skipped (it can only help a proof, never make one)."""
+    self.hints.append((after, Clause(label, fn)))
 
   def canary(self, label, fn):
     self.canaries.append(Clause(label, fn))
